@@ -17,7 +17,7 @@ REQUIRED = [
     "alignZAxisWithTargetDir_spec", "alignZAxisWithTargetDir_frame", "alignZAxisWithTargetDir_axes", "alignZAxisWithTargetDir_zero_target",
     "alignZAxisWithTargetDir_zero_up", "alignZAxisWithTargetDir_parallel", "rotationMatrixWithUpDir_frame", "computeLocalFrame_frame",
     "firstFrame_frame", "firstFrame_collinear", "lastFrame_frame", "nextFrame_eq", "nextFrame_frame", "nextFrame_tangent", "addOffset_eq",
-    "rotationMatrix_acute", "rotationMatrix_opposite", "rotationMatrix_obtuse_partial", "rotationMatrix_frame",
+    "rotationMatrix_acute", "rotationMatrix_opposite", "rotationMatrix_nearOpposite", "rotationMatrix_obtuse_partial", "rotationMatrix_frame",
 ]
 
 # residue checks that speak about a frame builder / builder family: used when a theorem about that function breaks
